@@ -33,10 +33,13 @@ Proof.
                                 | apply enum_rules_eq_dec | apply kfmt_eq_dec | apply entity_key_eq_dec
                                 | apply txt_rules_eq_dec | apply obool_eq_dec]).
 Defined.
+Definition map_rules_eq_dec : forall a b : map_rules, {a = b} + {a <> b}.
+Proof. decide equality; apply oN_eq_dec. Defined.
 Definition pty_eq_dec : forall a b : pty, {a = b} + {a <> b}.
 Proof.
   decide equality; try apply fty_eq_dec; try apply ostr_eq_dec.
-  decide equality; apply arr_rules_eq_dec.
+  - decide equality; apply arr_rules_eq_dec.
+  - decide equality; apply map_rules_eq_dec.
 Defined.
 Definition prop_eq_dec : forall a b : prop, {a = b} + {a <> b}.
 Proof. decide equality; try apply str_eq_dec; try apply bool_dec; apply pty_eq_dec. Defined.
